@@ -12,7 +12,8 @@ def act_tokens(a):
 
 
 def to_lines(case):
-    lines = ['reset', f'dims {len(case["rts"])} {case["nc"]} {case["nf"]}']
+    lines = ['reset', f'dims {len(case["rts"])} {case["nc"]} {case["nf"]}',
+             f'extclock {"T" if case.get("clock", "sys") != "sys" else "F"}']
     for i, r in enumerate(case['rts']):
         body = ' ; '.join(act_tokens(a) for a in r['script'])
         lines.append(f'rt {i} {"gen" if r["gen"] else "fun"} {"inval" if r["inval"] else "noinval"} {body}')
@@ -65,14 +66,17 @@ class Oracle:
         self.test = [False] * case['nc']
         self.fval = [None] * case['nf']
         self.stack = []                     # routines whose body is executing (outermost first)
+        self.clk = [0] * n                  # `_clock` of each routine: 0 = SystemClock, 1 = the case's other clock
+        self.ext_clk = 1 if case.get('clock', 'sys') != 'sys' else 0
 
     def bad(self, sig, what):
         raise Violation(sig, what)
 
-    def push(self, rid, at=None):
-        # one pending wake-up per routine: scheduling again replaces the older one (as in RT queues)
-        self.queue = [e for e in self.queue if e[2] != rid]
-        self.queue.append((self.now if at is None else at, self.seq, rid)); self.seq += 1
+    def push(self, rid, at=None, clk=None):
+        # one pending wake-up per (routine, clock): scheduling again replaces the older one (as in RT queues)
+        clk = self.clk[rid] if clk is None else clk
+        self.queue = [e for e in self.queue if (e[2], e[3]) != (rid, clk)]
+        self.queue.append((self.now if at is None else at, self.seq, rid, clk)); self.seq += 1
 
     def release(self, lst):
         for r in lst:
@@ -120,8 +124,14 @@ class Oracle:
                                         f'documented: refused={exp_ref}, state {exp_after}')
         self.state[t] = after
         if not refused:
-            if (o == 'play' and before in ('Init', 'Paused')) or (o == 'resume' and before == 'Paused'):
+            if o == 'play' and before in ('Init', 'Paused'):
+                # play() without a clock uses the current thread's; the outside passes the case's clock
+                self.clk[t] = self.clk[self.stack[-1]] if self.stack else self.ext_clk
                 self.push(t)
+            if o == 'resume' and before == 'Paused':
+                self.push(t)
+            if o in ('stop', 'reset'):
+                self.clk[t] = 0
             if o == 'reset':
                 self.terminal[t] = None
 
@@ -132,6 +142,8 @@ class Oracle:
             k = rec[0]
             if k == 'call':
                 _, actor, t, before = rec
+                if self.tick_of is not None and not frames and actor == 'M' and t == self.tick_of[1]:
+                    self.tick_called = True
                 if actor != self.actor():
                     self.bad('c11:current_tt', f'next() on r{t} called from the body of {self.actor()} '
                                                f'but main.current_tt was {actor}')
@@ -180,6 +192,10 @@ class Oracle:
                         self.bad('c11:table:next', f'next() entered r{t} but its body reported no exit ({res})')
                     exp = self.expect_exit(t, f['exit'])
                     ex = f['exit']
+                    gen = self.case['rts'][t]['gen']
+                    if (ex[2] == 'return' and gen) or (not gen and (ex[2] == 'rstop' or
+                                                                    (ex[2] == 'prop' and ex[3] in STOPLIKE))):
+                        self.clk[t] = 0          # the StopIteration / StopStream clauses restore the default clock
                     if ex[2] == 'ay':
                         self.terminal[t] = ex[3]
                     elif ex[2] == 'return' and not self.case['rts'][t]['gen']:
@@ -212,7 +228,8 @@ class Oracle:
                     self.bad('c11:sched', f'tick woke r{rid} at {time}; next due is r{e[2]} at {e[0]}')
                 self.queue.remove(e)
                 self.now = time
-                self.tick_of = (time, rid)
+                self.tick_of = (time, rid, e[3])
+                self.tick_called = False
             elif k == 'sig':
                 if self.test[rec[1]]:
                     self.release(self.waiting[rec[1]])
@@ -236,7 +253,7 @@ class Oracle:
     def check_op(self, i, x, out):
         line = out['line']
         res, log, snap = line.split('|', 2)
-        self.last_res, self.tick_of = None, None
+        self.last_res, self.tick_of, self.tick_called = None, None, False
         recs = list(out['x'])
         # ops that carry no record of their own
         if x[0] == 'sig':
@@ -257,10 +274,14 @@ class Oracle:
                 if self.queue:
                     self.bad('c11:sched', f'tick found nothing but r{min(self.queue)[2]} is due')
             else:
+                if not self.tick_called:
+                    self.bad('c11:sched:dropped', f'the wake-up of r{self.tick_of[1]} at {self.tick_of[0]} was not '
+                             f'delivered as next((routine, clock)) — a pending routine (also one that was reset() '
+                             f'meanwhile) must be woken, whichever clock holds the entry')
                 r = self.last_res or ''
                 if r.startswith('v:n'):
-                    t, rid = self.tick_of
-                    self.push(rid, t + int(r[3:]))
+                    t, rid, ck = self.tick_of
+                    self.push(rid, t + int(r[3:]), ck)
         if x[0] == 'rop' and (res == 'e:RoutineException') != bool(recs and recs[-1][5]):
             self.bad('c11:harness', 'rop result mismatch')
         for ent in log.split(' ') if log else []:
@@ -273,11 +294,15 @@ class Oracle:
         rs = parts[0].split(';')
         for j, ent in enumerate(rs):
             st = ent.split('=')[1].split('/')[0]
+            if ent.rsplit('/', 1)[1] != f'k{self.clk[j]}':
+                self.bad('c11:clock', f'r{j}._clock is {"SystemClock" if ent.endswith("k0") else "the other clock"} '
+                                      f'after op #{i} {x}; its operations leave it on '
+                                      f'{"the other clock" if self.clk[j] else "SystemClock"}')
             if st != self.state[j]:
                 self.bad('c11:table:untracked', f'r{j} is {st} after op #{i} {x}; its operations left it {self.state[j]}')
         if parts[1] != 'cur=M' or out.get('cur_repaired'):
             self.bad('c11:current_tt', f'after op #{i} {x} main.current_tt is {parts[1][4:]}, not the main thread')
-        q = ''.join(f'({t},{r})' for t, _, r in sorted(self.queue))
+        q = ''.join(f'({t},{r}{"*" if ck else ""})' for t, _, r, ck in sorted(self.queue))
         if parts[3] != 'q=' + q:
             hint = (' — a waiter may be scheduled only by signal/unhang of ITS OWN condition (test true) or by the '
                     'binding of ITS flow variable' if x[0] in ('sig', 'unh', 'fvset', 'next', 'tick') else '')
@@ -309,7 +334,7 @@ class Check(common.Check):
         'reachable_inv', 'current_tt_restored', 'current_tt_is_innermost', 'parent_chain_is_call_stack',
         'current_tt_main_when_idle', 'transition_table_ops', 'transition_table_next_entry',
         'transition_table_step', 'terminal_sticky', 'paused_raises_until_resume', 'self_ops_refused',
-        'reentrant_next_refused', 'cond_signal_false_is_noop', 'cond_resumes_once_after_true_signal',
+        'reentrant_next_refused', 'reset_keeps_pending_wakeup', 'cond_signal_false_is_noop', 'cond_resumes_once_after_true_signal',
         'cond_wait_parks_outermost_once', 'cond_wait_true_continues', 'tick_reschedules_iff_number',
         'cond_never_before', 'flowvar_single_assignment', 'call_stack_well_formed',
         'active_frame_has_position', 'pending_result_meets_its_nest')]
@@ -463,7 +488,17 @@ class Check(common.Check):
             life += rng.choice([[['rop', r, 'stop']], [['rop', r, 'pause'], ['rop', r, 'stop']], []])
             life += [['next', r, 'N']] * rng.randint(1, 3)
             ops = [list(x) for x in life] + ops[:rng.randint(0, 10)]
-        return {'rts': rts, 'nc': nc, 'nf': nf, 'ops': ops}
+        clock = rng.choice(['sys', 'sys', 'tempo', 'app'])
+        if rng.random() < 0.12:
+            # a routine pending on a clock is reset() from outside and nobody plays it again: it restarts from the
+            # top at its next wake-up (on SystemClock, a TempoClock or AppClock alike)
+            r = rng.randrange(nr)
+            rts[r] = {'gen': True, 'inval': rts[r]['inval'],
+                      'script': [['here'], ['y', rng.choice(['n1', 'n2'])], ['here'], ['y', 'n1'], ['y', 'n1']]}
+            clock = rng.choice(['tempo', 'tempo', 'app', 'sys'])
+            ops = [['rop', r, 'play'], ['tick']] + [['tick']] * rng.randint(0, 1) + [['rop', r, 'reset'], ['tick'],
+                                                                                      ['tick']] + ops[:rng.randint(0, 8)]
+        return {'rts': rts, 'nc': nc, 'nf': nf, 'ops': ops, 'clock': clock}
 
     EXH_PROGRAMS = [
         # waiter + controller; AlwaysYield + reset; nested propagate
